@@ -15,6 +15,7 @@ from __future__ import annotations
 import fcntl
 import hashlib
 import json
+import importlib
 import os
 import random
 import re
@@ -356,6 +357,9 @@ def _srctie_prove(pid: str, res: dict, thorough: bool):
     mod = 'BoltonsVerif.%s.SrcTie' % pid
     res['theorems'] = res['theorems'] + names
     extra = [os.path.join(LEAN, 'BoltonsVerif', f) for f in ('PyRt.lean', 'PyRtLemmas.lean', 'PyHeap.lean', 'PyRt%s.lean' % pid)]
+    extra += sorted({os.path.join(LEAN, 'BoltonsVerif', importlib.import_module(e).RT_IMPORT + '.lean')
+                     for e in {(sp.get('ext') or (sp.get('cls') or {}).get('ext')) for sp in specs} if e}
+                    - set(extra))
     extra += [os.path.join(LEAN, 'BoltonsVerif', 'Generated', 'Src_%s.lean' % m)
               for m in sorted({sp.get('gen_file') or sp['module'].split('.')[-1] for sp in specs})]
     for f in extra:
